@@ -40,3 +40,21 @@ Theorem C14_pinned_propagation_refuted :
     expected_in_out (Bool.eqb (e_is_subject (getE st ev)) (e_is_subject (getE st prev)))
                     (is_vertical st prev) (getE st prev).
 Proof. exact propagation_pinned_wrong. Qed.
+
+(** the propagation rule IS the crossing-number rule: for every status (edges bottom to top,
+    each of the subject or the clipping operand, vertical or not) the flags computed
+    bottom-up by the rule [compute_fields] implements are the parities of the non-vertical
+    edges of the own / other operand below the edge *)
+From GB Require Import StatusTheorem.
+Theorem C14_status_flags_are_parities :
+  forall (l : list sentry) (k : nat) (e : sentry) (f : bool * bool),
+  nth_error (run None l) k = Some (e, f) ->
+  fst f = par_op (s_subj e) (firstn k l) /\ snd f = negb (par_op (negb (s_subj e)) (firstn k l)).
+Proof. exact status_flags_are_parities. Qed.
+
+Theorem C14_rule_is_the_rule_of_compute_fields :
+  forall (N : Num) (p : event N) (pe : sentry) (subj : bool),
+  s_subj pe = e_is_subject p ->
+  rule (Some (pe, (e_in_out p, e_other_in_out p))) subj
+  = expected_in_out (Bool.eqb subj (e_is_subject p)) (s_vert pe) p.
+Proof. exact rule_is_expected_in_out. Qed.
